@@ -54,6 +54,8 @@ Definition step_violation (before : rcatalog) (st : obs_step) : bool :=
         (* a failed admin command or removal leaves the catalog as it was *)
         match o_op st with
         | OpMerge _ _ | OpRemove _ => negb (listing_eqb (listing before) (listing after))
+        (* a split that fails because its child cannot be hosted here keeps the partition and what it covers *)
+        | OpSplitUnhosted _ _ _ => partition_b before && negb (partition_b after && same_cover_b before after)
         | _ => false
         end).
 
@@ -78,6 +80,7 @@ Definition Rm (id : N) (s e : string) (v c st : N) : rmeta :=
   {| r_reg := {| g_id := id; g_start := unhex s; g_end := unhex e; g_ver := v; g_conf := c |}; r_state := st |}.
 Definition St (o : op) (ok : bool) (after : list rmeta) : obs_step := {| o_op := o; o_ok := ok; o_after := after |}.
 Definition Sp (p : N) (k : string) (ch : rmeta) : op := OpSplit p (unhex k) ch.
+Definition Su (p : N) (k : string) (ch : rmeta) : op := OpSplitUnhosted p (unhex k) ch.
 Definition Mg := OpMerge.
 Definition Up := OpUpdate.
 Definition Ss := OpSetState.
